@@ -45,7 +45,7 @@ m = {
         {"name": "kani-in-place", "path": "/verif/kani", "serves_properties": sorted(p for p in reg.PROPERTIES if reg.PROPERTIES[p].get("kani_quick") or reg.PROPERTIES[p].get("kani_thorough")),
          "kind_free_text": "Kani harness modules attached to the real crate through cfg(kani) #[path] hooks; loop-free full-domain harnesses are complete proofs, the rest are labelled bounded stand-ins"},
         {"name": "replay", "path": "/verif/replay", "serves_properties": sorted(reg.PROPERTIES),
-         "kind_free_text": "cargo project depending on /repo built with --cfg indicatif_verif: runs the real functions on concrete inputs and evaluates the executable form of failed clauses (witnesses only, never decides)"},
+         "kind_free_text": "cargo projects depending on /repo (replay: built with --cfg indicatif_verif; replay-async: the tokio feature against a signature-only tokio::io): run the real functions on concrete inputs and evaluate the executable form of contract clauses. Three uses, all labelled bounded and never counted as proof: witnesses for failed obligations, re-running listed known findings, and the bounded fallback / thorough-tier routines (DESIGN 9.6) whose only possible verdict is a violation with a replayable input"},
     ],
     "checks": checks,
     "not_applicable": na,
